@@ -1,20 +1,35 @@
 def J1(nm, ni, nl, gl, na, cmdset, dm, sm, si):
-    return {"name": "m%d-i%d-l%d-g%d-a%d-c%d-d%d-sm%d-si%d" % (nm, ni, nl, gl, na, cmdset, dm, sm, si), "func": "VerifHarness_Blocks",
-            "params": {"nmatch": nm, "nignore": ni, "nlabels": nl, "grouplabel": gl, "nann": na, "cmdset": cmdset, "durmode": dm, "shapem": sm, "shapei": si},
-            "unwind": 16, "reach": ["end"]}
+    # sm / si: tuple of presence shapes (bit mask: 1 command, 2 label, 4 annotation, 8 state), one per match / ignore block
+    params = {"nmatch": nm, "nignore": ni, "nlabels": nl, "grouplabel": gl, "nann": na, "cmdset": cmdset, "durmode": dm,
+              "shapem0": 0, "shapem1": 0, "shapei0": 0, "shapei1": 0}
+    for k, v in enumerate(sm):
+        params["shapem%d" % k] = v
+    for k, v in enumerate(si):
+        params["shapei%d" % k] = v
+    return {"name": "m%d-i%d-l%d-g%d-a%d-c%d-d%d-sm%s-si%s" % (nm, ni, nl, gl, na, cmdset, dm, "_".join(map(str, sm)) or "x", "_".join(map(str, si)) or "x"),
+            "func": "VerifHarness_Blocks", "params": params, "unwind": 16, "reach": ["end"]}
 
-def J(nm, ni, nl=1, gl=0, na=1, cmdset=1, dm=0, shapes=None):
-    # one job per presence shape of the optional conditions (command, label, annotation, state) of match / ignore blocks
-    sms = (shapes or range(16)) if nm else [0]
-    sis = (shapes or range(16)) if ni else [0]
-    if nm and ni and not shapes:
-        sms, sis = [0, 5, 10, 15], [0, 6, 9, 15]
+def combos(n, shapes):
+    if n == 0:
+        return [()]
+    if n == 1:
+        return [(s,) for s in shapes]
+    return [(a, b) for a in shapes for b in shapes]
+
+def J(nm, ni, nl=1, gl=0, na=1, cmdset=1, dm=0, shapes=None, pairs=None):
+    # one job per presence shape of the optional conditions of every match / ignore block
+    one = shapes or list(range(16))
+    few = shapes or ([0, 6, 9, 15] if nm + ni == 2 else [0, 15])
+    sms = combos(nm, one if nm + ni == 1 else few)
+    sis = combos(ni, one if nm + ni == 1 else few)
+    if pairs:
+        sms, sis = pairs
     return [J1(nm, ni, nl, gl, na, cmdset, dm, sm, si) for sm in sms for si in sis]
 
 def jobs(tier):
     out = []
     if tier == "quick":
-        for js in [J(1, 0), J(0, 1, dm=1), J(1, 0, nl=2, gl=1, na=2, shapes=[6, 15]), J(0, 0, cmdset=0), J(0, 0), J(1, 1, shapes=[15])]:
+        for js in [J(1, 0), J(0, 1, dm=1), J(1, 0, nl=2, gl=1, na=2, shapes=[6, 15]), J(0, 0, cmdset=0), J(0, 0), J(1, 1, shapes=[15]), J(2, 0, pairs=([(8, 0), (0, 8), (9, 6)], [()])), J(0, 2, pairs=([()], [(8, 0), (5, 2)]))]:
             out += js
         return out
     for nm in range(3):
